@@ -479,6 +479,43 @@ theorem splitGo_nonempty {α} (size : α → Nat) (l cur : List α) (sz : Nat) (
 theorem splitParts_nonempty {α} (size : α → Nat) (l : List α) (h : l ≠ []) : ∀ p ∈ splitParts size l, p ≠ [] :=
   splitGo_nonempty size l [] 0 (.inr h)
 
+/-- the parts are maximal: a part is closed only when the entry that opens the next part would not have fitted into it -/
+def Greedy {α} (size : α → Nat) : List (List α) → Prop
+  | p :: (e :: q) :: rest => (p.map size).sum + size e > partLimit ∧ Greedy size ((e :: q) :: rest)
+  | _ :: [] :: rest => Greedy size ([] :: rest)
+  | _ => True
+
+theorem splitGo_head {α} (size : α → Nat) (l cur : List α) (sz : Nat) :
+    ∃ t rest, splitGo size l cur sz = (cur.reverse ++ t) :: rest := by
+  induction l generalizing cur sz with
+  | nil => exact ⟨[], [], by simp [splitGo]⟩
+  | cons e r ih =>
+    unfold splitGo
+    split
+    · exact ⟨[], splitGo size r [e] (size e), by simp⟩
+    · obtain ⟨t, rest, h⟩ := ih (e :: cur) (sz + size e)
+      exact ⟨e :: t, rest, by rw [h]; simp⟩
+
+theorem splitGo_greedy {α} (size : α → Nat) (l cur : List α) (sz : Nat) (hsz : sz = (cur.map size).sum) :
+    Greedy size (splitGo size l cur sz) := by
+  induction l generalizing cur sz with
+  | nil => simp [splitGo, Greedy]
+  | cons e r ih =>
+    unfold splitGo
+    split
+    · rename_i hc
+      obtain ⟨t, rest, h⟩ := splitGo_head size r [e] (size e)
+      have ih' := ih [e] (size e) (by simp)
+      rw [h] at ih' ⊢
+      simp only [List.reverse_cons, List.reverse_nil, List.nil_append, List.singleton_append] at ih' ⊢
+      refine ⟨?_, ih'⟩
+      rw [List.map_reverse, List.sum_reverse, ← hsz]
+      exact hc.1
+    · exact ih (e :: cur) (sz + size e) (by simp [hsz]; omega)
+
+theorem splitParts_greedy {α} (size : α → Nat) (l : List α) : Greedy size (splitParts size l) :=
+  splitGo_greedy size l [] 0 rfl
+
 /-- every part fits into one message when every single entry does -/
 theorem splitParts_fit {α} (size : α → Nat) (l : List α) (hl : ∀ e ∈ l, size e ≤ partLimit) :
     ∀ p ∈ splitParts size l, (p.map size).sum ≤ partLimit :=
@@ -955,6 +992,11 @@ theorem rxFlowMod_ok (s : SwitchState) (xid command : Nat) (mk : MKey) (prio coo
     intro r hr
     simp only [List.mem_singleton] at hr
     exact .inr ⟨_, _, hr⟩
+  split
+  · refine ⟨s, _, rfl, ?_⟩
+    intro r hr
+    simp only [List.mem_singleton] at hr
+    exact .inr ⟨_, _, hr⟩
   · exact rxFlowModBody_ok s xid command mk prio cookie flags idle hard outPort b acts hs
 
 theorem rxFlowMod_fixed {s s' : SwitchState} {xid command : Nat} {mk : MKey} {prio cookie flags idle hard outPort : Nat}
@@ -963,15 +1005,72 @@ theorem rxFlowMod_fixed {s s' : SwitchState} {xid command : Nat} {mk : MKey} {pr
   unfold rxFlowMod at h
   split at h
   · injection h with h; injection h with h1 _; subst h1; rfl
+  split at h
+  · injection h with h; injection h with h1 _; subst h1; rfl
   · exact rxFlowModBody_fixed h
 
+/-- the handlers that install or rewrite action lists are registered under the commands the pre-checks look at -/
+theorem flowModTable_installing {c : Nat} {h : FlowModH} (hl : flowModTable.lookup c = some h) :
+    h = .delete ∨ h = .deleteStrict ∨ (c == OFPFC_ADD || c == OFPFC_MODIFY || c == OFPFC_MODIFY_STRICT) = true := by
+  have := lookup_mem hl
+  simp [flowModTable] at this
+  rcases this with ⟨rfl, rfl⟩ | ⟨rfl, rfl⟩ | ⟨rfl, rfl⟩ | ⟨rfl, rfl⟩ | ⟨rfl, rfl⟩
+  · exact .inr (.inr rfl)
+  · exact .inr (.inr rfl)
+  · exact .inr (.inr rfl)
+  · exact .inl rfl
+  · exact .inr (.inl rfl)
+
+/-- thanks to the TOO_MANY pre-check every table a flow_mod leaves behind can be reported, whatever the flow_mod -/
 theorem rxFlowMod_fit {s s' : SwitchState} {xid command : Nat} {mk : MKey} {prio cookie flags idle hard outPort : Nat}
-    {b : Option Nat} {acts : List Act} {o : List Reply} (ha : 88 + actsLenOf acts ≤ partLimit) (hs : FlowsFit s)
+    {b : Option Nat} {acts : List Act} {o : List Reply} (hs : FlowsFit s)
     (h : rxFlowMod s xid command mk prio cookie flags idle hard outPort b acts = .ok (s', o)) : FlowsFit s' := by
   unfold rxFlowMod at h
   split at h
   · injection h with h; injection h with h1 _; subst h1; exact hs
-  · exact rxFlowModBody_fit ha hs h
+  split at h
+  · injection h with h; injection h with h1 _; subst h1; exact hs
+  · rename_i _ htm
+    -- either the command installs nothing, or the entry it installs fits
+    unfold rxFlowModBody at h
+    cases hl : flowModTable.lookup command with
+    | none => rw [hl] at h; simp only at h; injection h with h; injection h with h1 _; subst h1; exact hs
+    | some hd =>
+      have hfit : FlowsFit (runFlowMod hd s xid command mk prio cookie flags idle hard outPort acts).1 := by
+        rcases flowModTable_installing hl with hdel | hdel | hcmd
+        · subst hdel; intro x hx; exact hs x (List.mem_filter.mp hx).1
+        · subst hdel; intro x hx; exact hs x (List.mem_filter.mp hx).1
+        · have ha : 88 + actsLenOf acts ≤ partLimit := by
+            unfold tooManyActions at htm
+            rw [hcmd] at htm
+            simp only [Bool.true_and, decide_eq_true_eq] at htm
+            omega
+          exact runFlowMod_fit hd s xid command mk prio cookie flags idle hard outPort acts ha hs
+      rw [hl] at h; simp only at h
+      cases b with
+      | none =>
+        simp only at h
+        injection h with h
+        rw [h] at hfit
+        exact hfit
+      | some id =>
+        simp only at h
+        cases hp : processFromBuffer xid (runFlowMod hd s xid command mk prio cookie flags idle hard outPort acts).1 acts id with
+        | error e => rw [hp] at h; cases h
+        | ok r =>
+          obtain ⟨s2, o2⟩ := r
+          rw [hp] at h; simp only at h
+          injection h with h; injection h with h1 _; subst h1
+          intro x hx
+          rw [processFromBuffer_table xid acts id hp] at hx
+          exact hfit x hx
+
+theorem tooMany_false {command : Nat} {acts : List Act} (h : 88 + actsLenOf acts ≤ 65523) : tooManyActions command acts = false := by
+  unfold tooManyActions
+  have : decide (88 + actsLenOf acts > partLimit) = false := by
+    have e : partLimit = 65523 := rfl
+    simp only [decide_eq_false_iff_not]; omega
+  rw [this]; simp
 
 /-- with every action type supported the pre-check passes -/
 theorem badActions_false {command : Nat} {acts : List Act} (hk : ∀ a ∈ acts, (actionTable.lookup a.ty).isSome = true) :
